@@ -344,7 +344,7 @@ def _gen_heat(rng, max_junctions, sorted_labels, kinds, big_labels):
     fl, rl = jl[:k + 1], jl[k + 1:]
     cnt = _Counter(rng, sorted_labels)
     all_kinds = ["hc_modes", "heat_exchanger", "circ_mass", "sections", "ext_grid_feed", "valve",
-                 "flow_control", "closed_valve"]
+                 "flow_control", "closed_valve", "standby"]
     if kinds is None:
         kinds = set(rng.sample(all_kinds, rng.randint(0, len(all_kinds))))
     else:
@@ -434,6 +434,20 @@ def _gen_heat(rng, max_junctions, sorted_labels, kinds, big_labels):
             meta["toggles"].append(("valve", bypass, "opened"))
             if "closed_valve" in kinds and rng.random() < 0.5:
                 ops[[i for i, o in enumerate(ops) if o["fn"] == "create_valve"][0]]["kw"]["opened"] = False
+    if "standby" in kinds:
+        # an idle second circulation pump next to the running one (created before or after it)
+        feed = ops[-1]
+        kw = dict(feed["kw"])
+        t_ = "circ_pump_mass" if feed["fn"] == "create_circ_pump_const_mass_flow" else "circ_pump_pressure"
+        kw["index"] = cnt.new(t_)
+        kw["in_service"] = False
+        if "plift_bar" in kw:
+            kw["plift_bar"] = round(kw["plift_bar"] + 0.5, 2)
+        else:
+            kw["mdot_flow_kg_per_s"] = round(kw["mdot_flow_kg_per_s"] * 1.5, 3)
+        if rng.random() < 0.4:
+            kw.pop("t_flow_k", None)
+        ops.insert(len(ops) - 1 if rng.random() < 0.5 else len(ops), {"fn": feed["fn"], "kw": kw})
     for (t, i) in meta["branches"]:
         if t == "heat_consumer" and len(consumers) > 1:
             meta["toggles"].append(("heat_consumer", i, "in_service"))
